@@ -115,6 +115,41 @@ func c19Run(c *C19Case, j C19Job, types []reflect.Type, vals []reflect.Value, in
 		}
 		return c19Result{v: v, out: "ok", raw: data}
 	}
+	if len(j.Route) > 5 && j.Route[:5] == "skip:" {
+		// a document whose members are mostly UNKNOWN to the target: the shared
+		// stream's value (arbitrary nesting) sits twice under unknown names
+		// between the two members the target knows
+		route := j.Route[5:]
+		evs := []model.Ev{{K: model.KObjStart, L: -1}, {K: model.KKey, S: []byte("a")}, {K: model.KInt, I: 7}, {K: model.KKey, S: []byte("skip1")}}
+		evs = append(evs, c.Streams[j.Item]...)
+		evs = append(evs, model.Ev{K: model.KKeyRef, S: []byte("z")}, model.Ev{K: model.KStr, S: []byte("end")}, model.Ev{K: model.KKey, S: []byte("skip2")})
+		evs = append(evs, c.Streams[j.Item]...)
+		evs = append(evs, model.Ev{K: model.KObjEnd})
+		var target struct {
+			A int
+			Z string
+			O int `struct:"skip2,omit"`
+		}
+		o := guard(func() error {
+			u, err := gotype.NewUnfolder(&target)
+			if err != nil {
+				return err
+			}
+			if route == "direct" {
+				_, err = model.Apply(evs, ensureExt(u))
+				return err
+			}
+			data, eo := encodeStream(codecs[route], EncOpts{IgnoreInvalidFloat: true}, evs)
+			if eo.Panicked() || eo.Err != nil {
+				return fmt.Errorf("encode: %v", eo)
+			}
+			return codecs[route].Parse(data, u)
+		})
+		if o.Panicked() || o.Err != nil {
+			return c19Result{out: "skip: " + o.String()}
+		}
+		return c19Result{v: model.Obj(model.Member{Key: []byte("a"), Val: model.Int(int64(target.A))}, model.Member{Key: []byte("z"), Val: model.Str([]byte(target.Z))}), out: "ok"}
+	}
 	if len(j.Route) > 5 && j.Route[:5] == "fold:" {
 		cd := codecs[j.Route[5:]]
 		_, rv, err := c.FoldItems[j.Item].build()
@@ -320,6 +355,10 @@ func drawC19(t *rapid.T) any {
 			c.Jobs = append(c.Jobs, C19Job{Item: rapid.IntRange(0, nf-1).Draw(t, "fitem"), Route: "fold:" + rapid.SampledFrom(formatNames).Draw(t, "ffmt")})
 			continue
 		}
+		if rapid.IntRange(0, 5).Draw(t, "skipjob") == 0 {
+			c.Jobs = append(c.Jobs, C19Job{Item: rapid.IntRange(0, ns-1).Draw(t, "skitem"), Route: "skip:" + rapid.SampledFrom(routes).Draw(t, "skroute")})
+			continue
+		}
 		if rapid.IntRange(0, 3).Draw(t, "codecjob") == 3 {
 			c.Jobs = append(c.Jobs, C19Job{Item: rapid.IntRange(0, ns-1).Draw(t, "sitem"), Route: "codec:" + rapid.SampledFrom(formatNames).Draw(t, "cfmt")})
 		} else {
@@ -332,7 +371,7 @@ func drawC19(t *rapid.T) any {
 func init() {
 	register(&Property{
 		ID:            "C19",
-		Rule:          "programs of G goroutines (quick: 2..8, thorough: 2..16) released by a barrier, each running its own pipeline — Fold of a fold-side value (custom folders, inlined interfaces, named containers) into an encoder, Fold -> Unfold directly or through the json/ubjson/cborl encoder and parser, or encoder -> parser over a shared event stream, where all goroutines parse the SAME byte slice (encoded once beforehand; entry points Parse, NewBytesDecoder, ParseReader, Parser.Parse, NewDecoder over short reads polled again after io.EOF, by goroutine index; the bytes must be unchanged afterwards) — 1..3 times on its OWN instances (half of the goroutines keep one unfolder, created without target and recycled with Reset + SetTarget before every document) over SHARED input values and SHARED freshly generated reflect.StructOf types (first use under contention) plus pool types incl. the self-referential ones; half of the programs take a FRESH member of a family of 144 self-referential generic types and let the goroutines use R, *R, []R and struct{P *R; S []R} at the same time (first use of a recursive type under contention); a third of the others use a type with a custom UnfoldState (Expander, stateful or processing user unfolder) as slice element, map value and struct field in all goroutines; the binary is built with -race (GORACE=halt_on_error): any race report, 'concurrent map' fatal error or crash is a violation; differential: every goroutine's outcome and value equal those of the same job run alone afterwards. Schedules are sampled by the Go scheduler (GOMAXPROCS 4, varied in the thorough tier), not enumerated. non-trivial = at least two goroutines share an item (type or stream) and route; distinct by case hash",
+		Rule:          "programs of G goroutines (quick: 2..8, thorough: 2..16) released by a barrier, each running its own pipeline — Fold of a fold-side value (custom folders, inlined interfaces, named containers) into an encoder, Fold -> Unfold directly or through the json/ubjson/cborl encoder and parser, an unfold of a document whose members are mostly unknown to the target (the shared stream's value, skipped twice), or encoder -> parser over a shared event stream, where all goroutines parse the SAME byte slice (encoded once beforehand; entry points Parse, NewBytesDecoder, ParseReader, Parser.Parse, NewDecoder over short reads polled again after io.EOF, by goroutine index; the bytes must be unchanged afterwards) — 1..3 times on its OWN instances (half of the goroutines keep one unfolder, created without target and recycled with Reset + SetTarget before every document) over SHARED input values and SHARED freshly generated reflect.StructOf types (first use under contention) plus pool types incl. the self-referential ones; half of the programs take a FRESH member of a family of 144 self-referential generic types and let the goroutines use R, *R, []R and struct{P *R; S []R} at the same time (first use of a recursive type under contention); a third of the others use a type with a custom UnfoldState (Expander, stateful or processing user unfolder) as slice element, map value and struct field in all goroutines; the binary is built with -race (GORACE=halt_on_error): any race report, 'concurrent map' fatal error or crash is a violation; differential: every goroutine's outcome and value equal those of the same job run alone afterwards. Schedules are sampled by the Go scheduler (GOMAXPROCS 4, varied in the thorough tier), not enumerated. non-trivial = at least two goroutines share an item (type or stream) and route; distinct by case hash",
 		New:           func() any { return &C19Case{} },
 		Draw:          drawC19,
 		Check:         checkC19,
